@@ -37,6 +37,8 @@ func init() {
 
 func runC16(c *eng.Ctx) {
 	p := c.P
+	tagsHashIsStateless(c)
+	readOnlyRowIsStateless(c)
 
 	// ---- 1. RESET of pooled rows / batch / converter --------------------------------------------------------------------
 	c.Rule("RESET", rowT, func() {
@@ -542,6 +544,118 @@ func runC16(c *eng.Ctx) {
 	})
 
 	// ---- 6. family grouping: a group is the rows inside the family range of the group's first row -----------------------------------
+	rowsInsideFirstRowsFamilyRange(c)
+
+	// ---- 7. line protocol: the shared row builder starts every line empty -----------------------------------------------------------
+	// ---- 5b. a pooled batch has one releaser ----------------------------------------------------------------------------------------------
+	// (channelManager.Write gives the batch back to the pool on every exit; a second Release - by the HTTP handler that parsed it,
+	// say - puts the same object into the pool twice and two overlapping requests then fill, sort and route ONE batch: rows of one
+	// request are lost, rows of the other are duplicated or written to the other request's database)
+	c.Rule("OWNER", bbrT+".Release{one releaser}", func() {
+		owner(c, "call of BrokerBatchRows.Release", eng.AnyCallTo(bbrT+".Release"), []string{"replica.channelManager.Write"}, 1)
+		w := c.Fn("replica.channelManager.Write")
+		rel := p.Sites(w, eng.AnyCallTo(bbrT+".Release"))
+		for i, s := range rel {
+			_, isDefer := s.Instr.(*ssa.Defer)
+			c.Check(isDefer || len(rel) == 1, fmt.Sprintf("released-once[%d]", i), s.Instr, w, "the batch is released once, by a deferred call", "")
+		}
+	})
+
+	// ---- 6a. the family range rows are grouped by ends where the next family starts ------------------------------------------------------
+	// (a calculator whose family START is taken from the local calendar - time.Date(…, time.Local): a day, a month - must take the
+	// END from the calendar too; "start + 24h - 1" is the end of that day only when the day has 24 hours. On a 25-hour day the
+	// group's own range excludes the row that opened it and HasNextFamily ends the shard's iteration: the rest is dropped)
+	familyEndLikeStart(c)
+
+	// ---- 6b. a failed shard/family write of a batch is reported: the error the batch write returns is sticky -----------------------
+	c.Rule("ERRFLOW", "replica.databaseChannel.Write{a failed family write is not forgotten}", func() {
+		f := c.Fn("replica.databaseChannel.Write")
+		ws := c.Some(f, invokeOn("", "Write"), "familyChannel.Write(ctx, rows)")
+		carried, lost := lostLoopErrors(p, f)
+		// the write's error must take part in the returned error at all
+		for i, w := range ws {
+			reach := false
+			// followed through the results of the unexported helpers the write may sit in
+			cur := w.Instr.(ssa.Value)
+			for d := 0; d < 4 && !reach; d++ {
+				g := cur.(ssa.Instruction).Parent()
+				hit := false
+				for _, b := range g.Blocks {
+					for _, in := range b.Instrs {
+						if r, ok := in.(*ssa.Return); ok && len(r.Results) == 1 && eng.DependsOn(r.Results[0], func(x ssa.Value) bool { return x == cur }) {
+							hit = true
+						}
+					}
+				}
+				if !hit {
+					break
+				}
+				if g == f {
+					reach = true
+					break
+				}
+				top := eng.TopOf(f, eng.Site{Instr: cur.(ssa.Instruction)})
+				tv, isV := top.(ssa.Value)
+				if top == nil || !isV || top.Parent() != f {
+					break
+				}
+				cur = tv
+			}
+			c.Check(reach, fmt.Sprintf("write-error-returned[%d]", i), w.Instr, f, "the error of a family write reaches the error databaseChannel.Write returns", "the result is dropped")
+		}
+		c.Check(carried > 0, "accumulates", nil, f, "the batch write accumulates its error over the shard and family loops", "no loop-carried error")
+		for i, l := range lost {
+			c.Check(false, fmt.Sprintf("sticky[%d]", i), l.At, f, "a failure recorded for one shard / family is not replaced by the outcome of a later one", l.Why)
+		}
+		if len(lost) == 0 {
+			c.Check(true, "sticky", nil, f, "a failure recorded for one shard / family is not replaced by the outcome of a later one", "")
+		}
+	})
+
+	c.Rule("RESET", "ingestion/influx.Parse{row builder per line}", func() {
+		f := c.Fn("ingestion/influx.Parse")
+		hn := c.One(f, invokeOn("", "HasNext"), "cr.HasNext()")
+		pl := c.One(f, eng.CallTo("ingestion/influx.parseInfluxLine"), "parseInfluxLine(rowBuilder, line, ...)")
+		rb := eng.CallArgs(pl.Instr.(*ssa.Call))[0]
+		var rs []eng.Site
+		for _, s := range p.Sites(f, invokeOn("", "Reset")) {
+			if eng.SameValue(eng.CallRecv(s.Instr.(*ssa.Call)), rb) {
+				rs = append(rs, s)
+			}
+		}
+		c.Check(len(rs) > 0, "builder-reset-exists", pl.Instr, f, "the row builder is reset inside the line loop", "no rowBuilder.Reset()")
+		_, stale := eng.Reaches(f, hn.Instr, []eng.Site{pl}, rs)
+		c.Check(!stale, "reset-before-every-line", pl.Instr, f,
+			"on every path from the loop test to parseInfluxLine the builder was reset: tags / fields a rejected line already added can not leak into the next row", "parseInfluxLine is reachable from cr.HasNext() without rowBuilder.Reset()")
+	})
+}
+
+func familyEndLikeStart(c *eng.Ctx) {
+	p := c.P
+	c.Rule("SYMMETRY", "pkg/timeutil{family end computed like family start}", func() {
+		calendar := func(f *ssa.Function) bool {
+			return len(p.Sites(f, eng.CallTo("time.Date"))) > 0 || len(p.Sites(f, eng.AnyCallTo("time.Time.AddDate"))) > 0
+		}
+		n := 0
+		for _, t := range []string{"day", "month", "year"} {
+			st := p.Func("pkg/timeutil." + t + ".CalcFamilyStartTime")
+			en := p.Func("pkg/timeutil." + t + ".CalcFamilyEndTime")
+			if st == nil || en == nil {
+				continue
+			}
+			n++
+			c.Check(calendar(st) == calendar(en), "start-and-end-agree:"+t, nil, en,
+				"the "+t+" calculator computes the family end through the calendar exactly when it computes the family start through the calendar", fmt.Sprintf("start uses the calendar: %v, end: %v", calendar(st), calendar(en)))
+		}
+		if n < 3 {
+			c.Undecided("unresolved anchor: expected the day, month and year calculators, found %d", n)
+		}
+	})
+}
+
+func rowsInsideFirstRowsFamilyRange(c *eng.Ctx) {
+	p := c.P
+	_ = p
 	c.Rule("GUARD", "series/metric.BrokerBatchShardFamilyIterator{rows inside the first row's family range}", func() {
 		fiT := "series/metric.BrokerBatchShardFamilyIterator"
 		trOf := eng.CallTo(fiT + ".timeRangeOfTimestamp")
@@ -786,112 +900,6 @@ func runC16(c *eng.Ctx) {
 		for i, r := range eng.SuccessReturns(nf) {
 			c.Check(eng.DependsOnField(eng.RetVal(r, 0), fiT+".groupFamilyTime") && eng.DependsOnField(eng.RetVal(r, 1), fiT+".groupStart") && eng.DependsOnField(eng.RetVal(r, 1), fiT+".groupEnd"),
 				fmt.Sprintf("next-family-returns-the-group[%d]", i), r, nf, "NextFamily returns the group's family time with rows[groupStart:groupEnd]", "")
-		}
-	})
-
-	// ---- 7. line protocol: the shared row builder starts every line empty -----------------------------------------------------------
-	// ---- 5b. a pooled batch has one releaser ----------------------------------------------------------------------------------------------
-	// (channelManager.Write gives the batch back to the pool on every exit; a second Release - by the HTTP handler that parsed it,
-	// say - puts the same object into the pool twice and two overlapping requests then fill, sort and route ONE batch: rows of one
-	// request are lost, rows of the other are duplicated or written to the other request's database)
-	c.Rule("OWNER", bbrT+".Release{one releaser}", func() {
-		owner(c, "call of BrokerBatchRows.Release", eng.AnyCallTo(bbrT+".Release"), []string{"replica.channelManager.Write"}, 1)
-		w := c.Fn("replica.channelManager.Write")
-		rel := p.Sites(w, eng.AnyCallTo(bbrT+".Release"))
-		for i, s := range rel {
-			_, isDefer := s.Instr.(*ssa.Defer)
-			c.Check(isDefer || len(rel) == 1, fmt.Sprintf("released-once[%d]", i), s.Instr, w, "the batch is released once, by a deferred call", "")
-		}
-	})
-
-	// ---- 6a. the family range rows are grouped by ends where the next family starts ------------------------------------------------------
-	// (a calculator whose family START is taken from the local calendar - time.Date(…, time.Local): a day, a month - must take the
-	// END from the calendar too; "start + 24h - 1" is the end of that day only when the day has 24 hours. On a 25-hour day the
-	// group's own range excludes the row that opened it and HasNextFamily ends the shard's iteration: the rest is dropped)
-	familyEndLikeStart(c)
-
-	// ---- 6b. a failed shard/family write of a batch is reported: the error the batch write returns is sticky -----------------------
-	c.Rule("ERRFLOW", "replica.databaseChannel.Write{a failed family write is not forgotten}", func() {
-		f := c.Fn("replica.databaseChannel.Write")
-		ws := c.Some(f, invokeOn("", "Write"), "familyChannel.Write(ctx, rows)")
-		carried, lost := lostLoopErrors(p, f)
-		// the write's error must take part in the returned error at all
-		for i, w := range ws {
-			reach := false
-			// followed through the results of the unexported helpers the write may sit in
-			cur := w.Instr.(ssa.Value)
-			for d := 0; d < 4 && !reach; d++ {
-				g := cur.(ssa.Instruction).Parent()
-				hit := false
-				for _, b := range g.Blocks {
-					for _, in := range b.Instrs {
-						if r, ok := in.(*ssa.Return); ok && len(r.Results) == 1 && eng.DependsOn(r.Results[0], func(x ssa.Value) bool { return x == cur }) {
-							hit = true
-						}
-					}
-				}
-				if !hit {
-					break
-				}
-				if g == f {
-					reach = true
-					break
-				}
-				top := eng.TopOf(f, eng.Site{Instr: cur.(ssa.Instruction)})
-				tv, isV := top.(ssa.Value)
-				if top == nil || !isV || top.Parent() != f {
-					break
-				}
-				cur = tv
-			}
-			c.Check(reach, fmt.Sprintf("write-error-returned[%d]", i), w.Instr, f, "the error of a family write reaches the error databaseChannel.Write returns", "the result is dropped")
-		}
-		c.Check(carried > 0, "accumulates", nil, f, "the batch write accumulates its error over the shard and family loops", "no loop-carried error")
-		for i, l := range lost {
-			c.Check(false, fmt.Sprintf("sticky[%d]", i), l.At, f, "a failure recorded for one shard / family is not replaced by the outcome of a later one", l.Why)
-		}
-		if len(lost) == 0 {
-			c.Check(true, "sticky", nil, f, "a failure recorded for one shard / family is not replaced by the outcome of a later one", "")
-		}
-	})
-
-	c.Rule("RESET", "ingestion/influx.Parse{row builder per line}", func() {
-		f := c.Fn("ingestion/influx.Parse")
-		hn := c.One(f, invokeOn("", "HasNext"), "cr.HasNext()")
-		pl := c.One(f, eng.CallTo("ingestion/influx.parseInfluxLine"), "parseInfluxLine(rowBuilder, line, ...)")
-		rb := eng.CallArgs(pl.Instr.(*ssa.Call))[0]
-		var rs []eng.Site
-		for _, s := range p.Sites(f, invokeOn("", "Reset")) {
-			if eng.SameValue(eng.CallRecv(s.Instr.(*ssa.Call)), rb) {
-				rs = append(rs, s)
-			}
-		}
-		c.Check(len(rs) > 0, "builder-reset-exists", pl.Instr, f, "the row builder is reset inside the line loop", "no rowBuilder.Reset()")
-		_, stale := eng.Reaches(f, hn.Instr, []eng.Site{pl}, rs)
-		c.Check(!stale, "reset-before-every-line", pl.Instr, f,
-			"on every path from the loop test to parseInfluxLine the builder was reset: tags / fields a rejected line already added can not leak into the next row", "parseInfluxLine is reachable from cr.HasNext() without rowBuilder.Reset()")
-	})
-}
-
-func familyEndLikeStart(c *eng.Ctx) {
-	p := c.P
-	c.Rule("SYMMETRY", "pkg/timeutil{family end computed like family start}", func() {
-		calendar := func(f *ssa.Function) bool {
-			return len(p.Sites(f, eng.CallTo("time.Date"))) > 0 || len(p.Sites(f, eng.AnyCallTo("time.Time.AddDate"))) > 0
-		}
-		n := 0
-		for _, t := range []string{"day", "month", "year"} {
-			st := p.Func("pkg/timeutil." + t + ".CalcFamilyStartTime")
-			en := p.Func("pkg/timeutil." + t + ".CalcFamilyEndTime")
-			if st == nil || en == nil {
-				continue
-			}
-			n++
-			c.Check(calendar(st) == calendar(en), "start-and-end-agree:"+t, nil, en,
-				"the "+t+" calculator computes the family end through the calendar exactly when it computes the family start through the calendar", fmt.Sprintf("start uses the calendar: %v, end: %v", calendar(st), calendar(en)))
-		}
-		if n < 3 {
-			c.Undecided("unresolved anchor: expected the day, month and year calculators, found %d", n)
 		}
 	})
 }
